@@ -44,7 +44,7 @@ def plan(tier, seed):
 
 def required(tier):
     from vlib.gridwork import KINDS
-    cl = [f'geom:{k}' for k in KINDS] + ['trajectory:more-than-65536-points', 'axes:alt+time', 'axes:', 'segment:antimeridian',
+    cl = [f'geom:{k}' for k in KINDS] + ['gridder:object-switched-to-another-grid', 'trajectory:more-than-65536-points', 'axes:alt+time', 'axes:', 'segment:antimeridian',
                                          'segment:multi-cell', 'alt-cell', 'time-cell',
                                          'state-values']
     return {'classes': cl, 'counters': {'cell_share_comparisons': 2000}, 'evaluations': 800}
@@ -176,6 +176,8 @@ def judge(c, rec, Mismatch, case):
             rec.cls('segment:multi-cell')
         if is_cross:
             rec.cls('segment:antimeridian')
+    if getattr(c, 'reused_gridder', False):
+        rec.cls('gridder:object-switched-to-another-grid')
     rec.cls(f'geom:{c.kind}', f'res:{c.grid["bucket"]}', f'axes:{c.desc["axes"]}',
             f'combo:{c.kind}:{c.grid["bucket"]}:{c.desc["axes"]}')
 
